@@ -8,15 +8,15 @@ import (
 )
 
 type T struct {
-	mu   sync.RWMutex
-	once sync.Once
-	wg   sync.WaitGroup
-	ptr  atomic.Pointer[int]
-	a    int
-	b    int
-	c    chan int
-	m    map[string]int
-	name string
+	mu     sync.RWMutex
+	once   sync.Once
+	wg     sync.WaitGroup
+	ptr    atomic.Pointer[int]
+	a      int
+	b      int
+	c      chan int
+	m      map[string]int
+	name   string
 	closed bool
 }
 
@@ -186,9 +186,9 @@ func (t *T) OtherObject(o *T) {
 
 // SyncUses: method calls on sync values are uses; delete writes the map field.
 func (t *T) SyncUses() {
-	t.ptr.Store(nil) // Use
-	t.wg.Wait()      // Use
-	delete(t.m, "k") // Wr []
+	t.ptr.Store(nil)     // Use
+	t.wg.Wait()          // Use
+	delete(t.m, "k")     // Wr []
 	t.once = sync.Once{} // Wr []
 }
 
